@@ -63,47 +63,29 @@ def always_resets(repo, cls, cache: Dict[str, bool], name: str, depth=3) -> bool
 
 
 def check_same_pipeline(ctx):
-    """C06.S: compile() and the flush path turn a proto-subroutine into a Subroutine through the same builder call, and that
-    call assembles and then applies the connection's transpiler (sibling agreement: what flush sends is what compile returns)."""
+    """C06.S: compile() and the flush path turn a proto-subroutine into a Subroutine through the same builder conversion, and that
+    conversion assembles and then applies the connection's transpiler (sibling agreement: what flush sends is what compile returns).
+    Decided by executing both paths against a recording builder and the conversion against a recording assembler / transpiler
+    (nqsa/pipeline.py)."""
+    from .. import pipeline
     repo = ctx.repo
-    m = repo.module(CONN)
-    conv = {}
-    for c in m.classes.values():
-        for name in ("compile", "commit_protosubroutine"):
-            fn = c.methods.get(name)
-            if fn is None:
-                continue
-            ctx.fn(f"{c.name}.{name}")
-            # the proto-subroutine: popped from the builder (compile) or the parameter (commit_protosubroutine)
-            protos = {k for k, v in A.single_defs(fn).items() if isinstance(v, ast.Call) and A.call_name(v) == POP} | {p for p in A.param_names(fn) if "proto" in p}
-            calls = []
-            for _t, v_, st in A.plain_assigns(fn):
-                if isinstance(v_, ast.Call) and any(isinstance(a, ast.Name) and a.id in protos for a in list(v_.args) + [k.value for k in v_.keywords]):
-                    calls.append(A.norm(v_.func))
-            conv[f"{c.name}.{name}"] = calls
-    ctx.anchor("C06.S", "methods converting a proto-subroutine", len(conv), 2)
-    kinds = {tuple(v) for v in conv.values()}
-    ctx.check("C06.S", "compile-and-flush-convert-the-proto-subroutine-the-same-way", len(kinds) == 1 and all(len(v) == 1 for v in conv.values()),
-              f"the proto-subroutine is converted by {conv}: compile() and the flush path must use the same single builder call, otherwise a pre-compiled subroutine "
-              "is not what a flush of the same operations sends (e.g. it misses the NV transpilation)", "netqasm/sdk/connection.py", sample={"conversions": conv})
+    conn = repo.get_class(CONN, "BaseNetQASMConnection")
     b = repo.get_class("netqasm.sdk.builder", "Builder")
-    used = {v[0].split(".")[-1] for v in conv.values() if v}
-    for meth in sorted(used):
-        f = b.methods.get(meth)
-        if f is None:
-            ctx.check("C06.S", f"Builder.{meth}:exists", False, f"the conversion `{meth}` is not a Builder method", "netqasm/sdk/builder.py")
-            continue
-        ctx.fn(f"Builder.{meth}")
-        pp = A.param_names(f)[1]
-        rets = A.returns(f)
-        rv = rets[0].value.id if len(rets) == 1 and isinstance(rets[0].value, ast.Name) else None
-        multi = A.assigned_names(f)
-        vals = [A.norm(v) for v in multi.get(rv, []) if v is not None] if rv else []
-        assembled = any(v == f"assemble_subroutine({pp})" for v in vals)
-        transp = [st for st in f.body if isinstance(st, ast.If) and A.norm(st.test) == "self._compilerisnotNone" and
-                  any(isinstance(x, ast.Assign) and A.norm(x.targets[0]) == rv and A.norm(x.value) == f"self._compiler(subroutine={rv}).transpile()" for x in st.body)]
-        ctx.check("C06.S", f"Builder.{meth}:assemble-then-transpile", assembled and len(transp) == 1,
-                  f"Builder.{meth} does not return assemble_subroutine(<proto>) passed through the connection's transpiler when one is configured", b.loc(f))
+    ctx.fn("BaseNetQASMConnection.compile")
+    ctx.fn("BaseNetQASMConnection.commit_protosubroutine")
+    ctx.fn("Builder.subrt_compile_subroutine")
+    try:
+        pr = pipeline.run_pipeline(ctx)
+    except AnalysisError as ex_:
+        ctx.error("C06.S", f"the compile / flush pipeline cannot be evaluated: {ex_}")
+        return
+    ctx.anchor("C06.S", "methods converting a proto-subroutine", 2, 2)
+    ctx.check("C06.S", "compile-and-flush-convert-the-proto-subroutine-the-same-way", pr["flush"] is None and pr["compile"] is None,
+              f"{pr['compile'] or pr['flush']}: compile() and the flush path must hand the popped proto-subroutine to the same builder conversion, otherwise a pre-compiled "
+              "subroutine is not what a flush of the same operations sends (e.g. it misses the NV transpilation)", conn.loc(), sample={"paths": ["flush", "compile"]})
+    ctx.check("C06.S", "Builder.subrt_compile_subroutine:assemble-then-transpile", pr["convert"] is None,
+              f"Builder.subrt_compile_subroutine does not return assemble_subroutine(<proto>) passed through the connection's transpiler when one is configured: {pr['convert']}", b.loc())
+    ctx.check("C06.S", "flush:builder-reset-only-after-the-subroutine-is-out", pr["reset-after-send"] is None, f"{pr['reset-after-send']}", conn.loc(), trivial=True)
 
 
 def _branches(e, facts=()):
@@ -123,50 +105,70 @@ def _typed_as_non_template(facts, var) -> bool:
 
 
 def check_templates_survive_assembly(ctx):
-    """C06.A — a template operand has to reach Subroutine.instantiate: the assembler passes (label resolution, constant lifting)
-    may replace an operand of a command only where a type test says it is something else than a Template."""
-    repo = ctx.repo
+    """C06.A - a template operand has to reach Subroutine.instantiate: the assembler passes (arguments, constant lifting, label
+    resolution) must hand every Template on untouched.  Decided by executing assemble_subroutine (checker's interpreter,
+    _build_subroutine modelled: it returns the command list) on programs whose commands carry Template objects in every operand
+    position - at an exempt (immediate) position, at a register position, next to literals that are lifted, and with a template
+    whose name is also the name of a label of the program: afterwards the very same Template objects sit at the same positions."""
+    from .. import circuit as C
+    from ..model import EnumMember
+    from . import c03
+    repo, ev = ctx.repo, ctx.ev
     m = repo.module("netqasm.lang.parsing.text")
-    n_sites = 0
-    for fname, fn in sorted(m.functions.items()):
-        for st in A.body_nodes(fn):
-            if not (isinstance(st, ast.Assign) and isinstance(st.targets[0], ast.Subscript) and isinstance(st.targets[0].value, ast.Attribute) and st.targets[0].value.attr == "operands"):
-                continue
-            # the loop variable holding the operand being replaced
-            elem = None
-            for lp in ast.walk(fn):
-                if isinstance(lp, ast.For) and any(x is st for x in ast.walk(lp)):
-                    it = lp.iter
-                    over = it.args[0] if isinstance(it, ast.Call) and dotted(it.func) == "enumerate" and it.args else it
-                    if isinstance(over, ast.Attribute) and over.attr == "operands":
-                        tg = lp.target.elts[-1] if isinstance(lp.target, ast.Tuple) else lp.target
-                        if isinstance(tg, ast.Name):
-                            elem = tg.id
-            if elem is None:
-                ctx.error("C06.A", f"{fname}: cannot identify the operand replaced by `{src(st)}`")
-                continue
-            n_sites += 1
-            ctx.fn(f"text.{fname}")
-            v = A.expand(st.value, A.single_defs(fn))
-            site_facts = tuple(G.path_conditions(fn, st))
-            bad = None
-            callee = m.functions.get(A.call_name(v)) if isinstance(v, ast.Call) else None
-            if callee is not None and any(isinstance(a, ast.Name) and a.id == elem for a in v.args):
-                pos = [k for k, a in enumerate(v.args) if isinstance(a, ast.Name) and a.id == elem][0]
-                p = A.param_names(callee)[pos]
-                ctx.fn(f"text.{callee.name}")
-                for r in A.returns(callee):
-                    for facts, val in _branches(r.value, tuple(G.path_conditions(callee, r))):
-                        if A.norm(val) != p and not _typed_as_non_template(facts, p) and not _typed_as_non_template(site_facts, elem):
-                            bad = f"{callee.name} can return `{src(val)[:60]}` for an operand that was not tested to be a label / constant"
-            else:
-                for facts, val in _branches(v, site_facts):
-                    if A.norm(val) != elem and not _typed_as_non_template(facts, elem):
-                        bad = f"the operand is replaced by `{src(val)[:60]}` without a type test"
-            ctx.check("C06.A", f"{fname}:operand-replaced-only-under-a-type-test-that-excludes-templates", bad is None,
-                      f"{fname}: {bad}; a Template operand named like a label (or otherwise matching) is consumed by the assembler, so instantiate() has nothing left to fill in",
-                      repo.loc(m, st), sample={"function": fname, "site": src(st)})
-    ctx.anchor("C06.A", "assembler sites that replace an operand of a command", n_sites, 2)
+    asm = m.functions.get("assemble_subroutine")
+    if asm is None:
+        raise AnalysisError("text.assemble_subroutine not found")
+    ctx.fn("text.assemble_subroutine")
+    irm = repo.module("netqasm.lang.ir")
+    icmd, blab, proto = irm.classes["ICmd"], irm.classes["BranchLabel"], irm.classes["ProtoSubroutine"]
+    opm = repo.module(I.OPERAND_MOD)
+    tcls, R_, LBL = opm.classes["Template"], opm.classes["Register"], opm.classes["Label"]
+    gi = repo.get_class("netqasm.lang.ir", "GenericInstr")
+    gm = ev.enum_members(gi)
+    rn = repo.get_class("netqasm.lang.encoding", "RegisterName")
+    rmem = ev.enum_members(rn)
+    exc = c03.exception_table(ctx)
+    ins = lambda n_: EnumMember(gi.qualname, n_, gm[n_])
+    reg = lambda i_: C.Obj(R_, {"name": EnumMember(rn.qualname, "R", rmem["R"]), "index": i_})
+    T = lambda n_: C.Obj(tcls, {"name": n_})
+    rot = next((g for g, i in sorted(exc) if g.startswith("ROT")), None)
+    if rot is None or ("JMP", 0) not in exc:
+        raise AnalysisError("no rotation / jmp entry in the literal-exception table")
+    plain = next(n_ for n_ in sorted(gm) if not any(e[0] == n_ for e in exc))
+    t_imm, t_reg, t_lab, t_arg = T("angle"), T("value"), T("A"), T("arg")
+    cmds = [C.Obj(blab, {"name": "A", "lineno": None}),
+            C.Obj(icmd, {"instruction": ins(rot), "args": [], "operands": [reg(0), t_imm, 4], "lineno": None}),       # template at an exempt position
+            C.Obj(icmd, {"instruction": ins(plain), "args": [t_arg], "operands": [t_reg, 77], "lineno": None}),      # template as bracketed argument and at a register position, next to a literal
+            C.Obj(icmd, {"instruction": ins(rot), "args": [], "operands": [reg(1), t_lab, 2], "lineno": None}),      # template named like the label
+            C.Obj(icmd, {"instruction": ins("JMP"), "args": [], "operands": [C.Obj(LBL, {"name": "A"})], "lineno": None})]
+    where = {"angle": (1, 1), "arg": (2, 0), "value": (2, 1), "A": (3, 1)}
+    sc = C.Scenario()
+    sc.plain_registers = True
+    sc.globals = {"_REPLACE_CONSTANTS_EXCEPTION": [(ins(a_), b_) for a_, b_ in sorted(exc)]}
+    sc.overrides["_build_subroutine"] = lambda pre_subroutine=None, flavour=None, *a_, **k_: list(pre_subroutine.fields.get("_commands", pre_subroutine.fields.get("commands")))
+    pre = C.Obj(proto, {"_commands": list(cmds), "_arguments": [], "_app_id": 0, "_netqasm_version": (0, 10)})
+    bad = None
+    try:
+        out = C.Interp(repo, ev, sc, None).call_function(m, asm, [pre], {"flavour": C.Obj(None, {})})
+        kept = [c_ for c_ in cmds[1:] if any(c_ is x for x in (out or []))]
+        if len(kept) != 4:
+            bad = "the source commands are not all in the assembled program"
+        else:
+            for t_ in (t_imm, t_arg, t_reg, t_lab):
+                ci, pi = where[t_.fields["name"]]
+                ops = cmds[ci].fields["operands"]
+                if pi >= len(ops) or ops[pi] is not t_:
+                    bad = bad or f"the template `{{{t_.fields['name']}}}` written as operand {pi} of command {ci} is `{ops[pi] if pi < len(ops) else None!r}` after assembling"
+            jt = cmds[4].fields["operands"][0]
+            if jt != 0 or isinstance(jt, bool):
+                bad = bad or f"the jump to label A targets {jt!r}, expected 0"
+    except C.EvalRaise as ex_:
+        bad = f"assembling raises {ex_}"
+    except AnalysisError as ex_:
+        ctx.error("C06.A", f"assemble_subroutine cannot be evaluated: {ex_}")
+        return
+    ctx.check("C06.A", "assemble_subroutine:templates-reach-instantiate-untouched", bad is None,
+              f"{bad}: a Template operand is consumed or replaced by the assembler, so instantiate() has nothing left to fill in", repo.loc(m, asm), sample={"templates": sorted(where)})
 
 
 def check_value_equals_filled_template(ctx, rule="C06.P"):
@@ -407,15 +409,16 @@ def run(ctx):
 CN = "netqasm/sdk/connection.py"
 SU = "netqasm/lang/subroutine.py"
 SEEDS = [
-    dict(id="c06-label-lookup-untyped", file="netqasm/lang/parsing/text.py", expect="C06.A", construct="_update_labels_in_command",
+    dict(id="c06-label-lookup-untyped", file="netqasm/lang/parsing/text.py", expect="C06.A", construct="templates-reach-instantiate",
          old="    if isinstance(operand, Label):\n        for label, value in labels.items():\n            if operand.name == label:\n                return value\n    return operand\n",
          new="    return labels.get(getattr(operand, \"name\", None), operand)\n"),
-    dict(id="c06-label-lookup-admits-template", file="netqasm/lang/parsing/text.py", expect="C06.A", construct="_update_labels_in_command",
+    dict(id="c06-label-lookup-admits-template", file="netqasm/lang/parsing/text.py", expect="C06.A", construct="templates-reach-instantiate",
          old="    if isinstance(operand, Label):\n        for label, value in labels.items():", new="    if isinstance(operand, (Label, Template)):\n        for label, value in labels.items():"),
-    dict(id="c06-constant-lift-untyped", file="netqasm/lang/parsing/text.py", expect="C06.A", construct="_replace_constants",
+    dict(id="c06-constant-lift-untyped", file="netqasm/lang/parsing/text.py", expect="C06.A", construct="templates-reach-instantiate",
          old="                isinstance(operand, int)\n                and (command.instruction, j) not in _REPLACE_CONSTANTS_EXCEPTION", new="                not isinstance(operand, (Register, ArrayEntry, ArraySlice, Label))\n                and (command.instruction, j) not in _REPLACE_CONSTANTS_EXCEPTION"),
-    dict(id="c06-compile-assembles-only", file="netqasm/sdk/connection.py", expect="C06.S", construct="compile-and-flush",
-         old="        subroutine = self._builder.subrt_compile_subroutine(protosubroutine)\n\n        # The arrays and registers", new="        subroutine = assemble_subroutine(protosubroutine)\n\n        # The arrays and registers"),
+    dict(id="c06-compile-assembles-only", expect="C06.S", construct="compile-and-flush",
+         edits=[("netqasm/sdk/connection.py", "        subroutine = self._builder.subrt_compile_subroutine(protosubroutine)\n\n        # The arrays and registers", "        subroutine = assemble_subroutine(protosubroutine)\n\n        # The arrays and registers"),
+                ("netqasm/sdk/connection.py", "from netqasm.lang.subroutine import Subroutine\n", "from netqasm.lang.parsing.text import assemble_subroutine\nfrom netqasm.lang.subroutine import Subroutine\n")]),
     dict(id="c06-builder-skips-transpiler", file="netqasm/sdk/builder.py", expect="C06.S", construct="assemble-then-transpile",
          old="        if self._compiler is not None:\n            subroutine = self._compiler(subroutine=subroutine).transpile()\n", new="        if self._compiler is not None and self._track_lines:\n            subroutine = self._compiler(subroutine=subroutine).transpile()\n"),
 
